@@ -296,11 +296,17 @@ def run(rep, tier, rng):
             return ("div", a1, p[2]), ("div", b1) + e[2:]
         return p, e
 
+    TYPED = [None]     # when set to a vocabulary: every symbol leaf is created already typed (PointerSymbol(name, TVocabulary(v)))
+
     def run_prog(p):
         k = p[0]
         if k == "sym":
+            if TYPED[0] is not None:
+                return PointerSymbol(c10.NAMES[p[1]], TVocabulary(TYPED[0]))
             return getattr(sym, c10.NAMES[p[1]])
         if k == "symexpr":
+            if TYPED[0] is not None:
+                return PointerSymbol(sym(p[1])._expr_tree, TVocabulary(TYPED[0]))     # what sym('<text>') builds, typed
             return sym(p[1])
         if k == "num":
             return p[2]
@@ -359,13 +365,21 @@ def run(rep, tier, rng):
             if noise_normalised(p):
                 rep.count("normalisation-of-rounding-noise-skipped")
                 continue
+            typed = it % 3 == 1      # leaves typed from the start: the result must still know its vocabulary and evaluate on its own
             with warnings.catch_warnings():
                 warnings.simplefilter("ignore")
-                o = c.observe(lambda: PointerSymbol(run_prog(p)._expr_tree, TVocabulary(voc)).evaluate().v)
+                if typed:
+                    TYPED[0] = voc
+                    try:
+                        o = c.observe(lambda: run_prog(p).evaluate().v)
+                    finally:
+                        TYPED[0] = None
+                else:
+                    o = c.observe(lambda: PointerSymbol(run_prog(p)._expr_tree, TVocabulary(voc)).evaluate().v)
                 txt = c.observe(lambda: str(run_prog(p)._expr_tree))
             exprs.append(f"check_parse {al} {c.nat(d)} {cents} {c10.to_coq(e)} ({c.z(4 ** 5 * d ** 4)}, 1000000000%Z) "
                          + (c.obs_term(o, algs.enc_vec) if o[0] != "ok" or np.ndim(o[1]) == 1 else "(OExn OtherError)"))
-            meta.append({"alg": al, "program": repr(p), "printed": txt[1] if txt[0] == "ok" else None, "entries": ents,
+            meta.append({"alg": al, "program": repr(p), "typed_leaves": typed, "printed": txt[1] if txt[0] == "ok" else None, "entries": ents,
                          "obs": c.obs_json(o) if o[0] == "ok" else list(o[:2])})
             rexprs.append(f"parse_representable {al} {c.nat(d)} {cents} {c10.to_coq(e)}")
             rep.case(("symbolic", al, repr(p)), nontrivial=c10.size(e) > 2,
@@ -405,7 +419,14 @@ def run(rep, tier, rng):
                     for _s in range(rng.randint(1, 5)):
                         k = rng.choice(["add", "sub", "mul", "rmul", "rbind", "neg", "inv", "scale", "rscale", "div", "pow", "normalized", "linv", "rinv", "negscale"])
                         q = voc[rng.choice(c10.NAMES)]
-                        steps.append(k)
+                        if k in ("add", "sub", "mul", "rmul") and rng.random() < 0.3:
+                            # a symbolic operand: the result is still a named pointer of the vocabulary
+                            q = rng.choice([lambda: getattr(sym, rng.choice(c10.NAMES)), lambda: sym(f"{rng.choice(c10.NAMES)} * {rng.choice(c10.NAMES)}"),
+                                            lambda: getattr(sym, rng.choice(c10.NAMES)).normalized()])()
+                            k_rec = k + "-symbol"
+                        else:
+                            k_rec = k
+                        steps.append(k_rec)
                         if k == "add":
                             p = p + q
                         elif k == "sub":
